@@ -373,7 +373,14 @@ def cards(gp, rng, redundant=0.15, shortcuts=True):
             byval = {}
             for p, v in c["imp"].items():
                 byval.setdefault(v, []).append(p)
-            if len(byval) == 1 and rng.random() < 0.7:
+            share = gp.get("imp_share")  # (C09) None: as before | "always": one entry per group of equal particles | "never"
+            if share == "always":
+                for v, ps in byval.items():
+                    params.append(("imp:" + ",".join(ps), [spell(rng, v, False)]))
+            elif share == "never":
+                for p, v in c["imp"].items():
+                    params.append((f"imp:{p}", [spell(rng, v, False)]))
+            elif len(byval) == 1 and rng.random() < 0.7:
                 params.append(("imp:" + ",".join(c["imp"].keys()), [spell(rng, list(byval)[0], False)]))
             else:
                 for p, v in c["imp"].items():
@@ -421,7 +428,14 @@ def cards(gp, rng, redundant=0.15, shortcuts=True):
     d.append({"words": ["mode"] + gp["mode"], "params": [], "dollar": None})
     cs = gp["cells"]
     vectors = [[c["imp"][p] for c in cs] for p in gp["mode"]]
-    if place["imp"] == "data" and len(gp["mode"]) > 1 and all(v == vectors[0] for v in vectors) and rng.random() < 0.75:
+    if place["imp"] == "data" and gp.get("imp_share") == "always" and len(gp["mode"]) > 1:
+        # (C09) one input per group of particles with equal vectors: imp:n,p 1 1 0 / imp:e 2 2 0
+        groups = {}
+        for p, v in zip(gp["mode"], vectors):
+            groups.setdefault(tuple(v), []).append(p)
+        for v, ps in groups.items():
+            d.append({"words": ["imp:" + ",".join(ps)] + [spell(rng, x, False) for x in v], "params": [], "dollar": None})
+    elif place["imp"] == "data" and gp.get("imp_share") != "never" and len(gp["mode"]) > 1 and all(v == vectors[0] for v in vectors) and rng.random() < 0.75:
         # one input for all particles: imp:n,p 1 1 0
         d.append({"words": ["imp:" + ",".join(gp["mode"])] + [spell(rng, x, False) for x in vectors[0]], "params": [], "dollar": None})
     elif place["imp"] == "data":
